@@ -220,3 +220,27 @@ Definition loop_ticks (setup_sites loop_sites : list site) : list (Z * Z * style
 Definition all_vars (setup_sites loop_sites : list site) : list (Z * Z * style) :=
   flat_map (fun name => registered name 0 (setup_sites ++ loop_sites))
            (sorted_set (map fst (setup_sites ++ loop_sites))).
+
+(* ---- specification vocabulary used by the statements in Props/C18.v *)
+Definition dno_delay (evs : list dev) : Prop := forall ms, ~ In (DDelay ms) evs.
+(* every cell written lies in the animation's row and inside the display width *)
+Definition din_row (cols row : Z) (evs : list dev) : Prop :=
+  forall r c ch, In (DW r c ch) evs -> r = row /\ 0 <= c < cols.
+Definition matrix_wf (cols rows : Z) (m : list (list Z)) : Prop :=
+  zlen m = rows /\ forall row, In row m -> zlen row = cols.
+(* a frame: [c] blanks, the visible text [s], blanks up to the width *)
+Definition frame (cols c : Z) (s : list Z) : list Z := spaces c ++ s ++ spaces (cols - c - zlen s).
+
+(* the number of steps a non-looping animation performs before it is inactive *)
+Definition dsteps_total (sty : style) (cols : Z) (text : list Z) : Z :=
+  let n := zlen text in
+  match sty with
+  | Scroll => Z.max n cols + cols
+  | Blink => 1
+  | Typewriter => if n <=? 1 then 1 else n - 1
+  | Bounce => if (n <=? 0) || (n >=? cols) then 1 else 2 * (cols - n)
+  end.
+
+(* the index the emitter gives to a call site: how many sites of the same LCD precede it *)
+Definition count_name (name : Z) (sites : list site) : Z :=
+  zlen (filter (fun s => fst s =? name) sites).
